@@ -463,6 +463,7 @@ def _zlib_status(prog, chk, D5, zu):
     else:
         chk.ok(D5, inst + ' -> inner loop ends, outer loop feeds the next chunk', locstr(outer),
                site=inst)
+    benign_buf_error(prog, chk, D5, zu, obody, ocond, vars_, sid, outer)
     # error codes must never fall through to use of the output
     for cname in ('Z_DATA_ERROR', 'Z_MEM_ERROR', 'Z_NEED_DICT'):
         res = _zlib_round(prog, zu, obody, ocond, vars_, sid, Z_CODES[cname], False, exhausted=False)
@@ -471,6 +472,45 @@ def _zlib_status(prog, chk, D5, zu):
         else:
             chk.violation(D5, 'zlib_uncompress|%s|not-rejected' % cname, locstr(outer),
                           'inflate status %s does not end in an exception (outcomes %s)' % (cname, sorted(res)))
+
+
+def zlib_loop(prog, zu):
+    """(obody, ocond, vars_, sid, outer) of the decompression loop, as _zlib_status finds them."""
+    outer = [n for n in children(zu.body) if n.get('kind') in ('DoStmt', 'WhileStmt', 'ForStmt')]
+    if len(outer) != 1:
+        raise AnalysisBroken('zlib_uncompress: expected one top-level loop, found %d' % len(outer))
+    outer = outer[0]
+    if outer['kind'] == 'DoStmt':
+        obody, ocond = children(outer)[0], children(outer)[1]
+    elif outer['kind'] == 'WhileStmt':
+        ocond, obody = children(outer)[0], children(outer)[-1]
+    else:
+        raise AnalysisBroken('zlib_uncompress: outer loop form not modelled')
+    vars_ = {x.get('name'): x for x in walk(zu.body) if x.get('kind') == 'VarDecl'}
+    for need in ('ptr', 'end', 'ret'):
+        if need not in vars_:
+            raise AnalysisBroken('zlib_uncompress: variable %s not found' % need)
+    strm = [x for x in walk(zu.body) if x.get('kind') == 'VarDecl' and 'z_stream' in (x.get('type') or '')]
+    if len(strm) != 1:
+        raise AnalysisBroken('zlib_uncompress: z_stream variable not found')
+    return obody, ocond, vars_, strm[0]['id'], outer
+
+
+def benign_buf_error(prog, chk, rid, zu, obody, ocond, vars_, sid, outer):
+    """zlib.h: "inflate() returns Z_BUF_ERROR if no progress was possible ... Note that Z_BUF_ERROR is
+    not fatal, and inflate() can be called again with more input".  It happens on a valid stream when
+    a round consumed its whole input slice while filling the output buffer exactly: the loop calls
+    inflate once more (the buffer was full), which has nothing to do.  With further input slices
+    to come the loop must go on to feed them - neither throw nor leave."""
+    res = _zlib_round(prog, zu, obody, ocond, vars_, sid, Z_CODES['Z_BUF_ERROR'], False,
+                      exhausted=False, in_left=0)
+    inst = 'further input slices follow, inflate returns Z_BUF_ERROR (slice consumed as the output buffer filled)'
+    if res == {'continues'}:
+        chk.ok(rid, inst + ' -> continues with the next slice', locstr(outer), site=inst)
+    else:
+        chk.violation(rid, 'zlib_uncompress|Z_BUF_ERROR|benign no-progress call rejected', locstr(outer),
+                      '%s: outcome %s instead of continuing with the next slice - a valid stream whose '
+                      'compressed data happens to align with the slice size is rejected' % (inst, sorted(res)))
 
 
 def _zlib_round(prog, zu, obody, ocond, vars_, sid, code, more_output, exhausted=True,
